@@ -396,6 +396,9 @@ func scramble(n ast.Node) {
 func init() {
 	// c18 reads ALL inputs first, then checks: repeatability, order independence, concurrency, no shared state
 	commands["c18"] = func(args []string) {
+		if len(args) > 0 {
+			globalSeed = int64(atoi(args[0]))
+		}
 		type cs struct {
 			e *entryPoint
 			x string
